@@ -24,7 +24,12 @@ def known_findings():
 
 def native(cmd_args, timeout=900):
     env = dict(os.environ, PYTHONPATH=REPO + ":" + ROOT)
-    return subprocess.run([NATIVE_PY] + cmd_args, env=env, capture_output=True, text=True, timeout=timeout, cwd=ROOT)
+    try:
+        return subprocess.run([NATIVE_PY] + cmd_args, env=env, capture_output=True, text=True, timeout=timeout, cwd=ROOT)
+    except subprocess.TimeoutExpired:
+        # a native run that does not finish is not a verdict: no failing input was found (the caller reports the refuted
+        # obligation without one); returncode 2 = undecided
+        return subprocess.CompletedProcess(cmd_args, 2, stdout="", stderr="native run timed out after %d s" % timeout)
 
 
 def replay_file(path):
@@ -103,6 +108,12 @@ def conclude(prop, tier, seed, results, extras, wall, partial=False):
             sys.stderr.write(c["crash"])
         print("CHECKER-CRASH property=%s" % prop)
         return 3
+    bad_runs = [e for e in extras if any(v.get("key") == "crash" for v in e.get("violations", []))]
+    for e in bad_runs:
+        # a bounded stand-in that crashed or ran out of time has not decided anything: never a violation (exit 3 below unless
+        # something else was refuted)
+        sys.stderr.write("bounded check %s did not finish: %s\n" % (e.get("name"), [v.get("detail") for v in e["violations"] if v.get("key") == "crash"][0]))
+        e["violations"] = [v for v in e["violations"] if v.get("key") != "crash"]
     nob = ndis = 0
     known_hits = {}
     by_backend = {}
@@ -176,12 +187,16 @@ def conclude(prop, tier, seed, results, extras, wall, partial=False):
         if k is not None:
             known_hits.setdefault(k["id"], {"k": k, "obls": [], "replay": path})["obls"].append(o["name"])
             continue
-        if kind in SEARCH_KINDS and kind in search_cache:
-            out = search_cache[kind]       # the replay of this kind is a search that does not depend on the obligation
+        ckey = kind
+        if kind == "rewriter":
+            # the rewriter replay is a search too (the partitions have their own first)
+            ckey = "rewriter/partition" if str(r.get("variant", "")).startswith("partition:") else "rewriter"
+        if (kind in SEARCH_KINDS or kind == "rewriter") and ckey in search_cache:
+            out = search_cache[ckey]       # the replay of this kind is a search that does not depend on the obligation
         else:
-            out = native([os.path.join(ROOT, "native", "replay.py"), path])
+            out = native([os.path.join(ROOT, "native", "replay.py"), path], timeout=600)
             replayed += 1
-            search_cache[kind] = out
+            search_cache[ckey] = out
         confirmed = out.returncode == 1
         try:
             detail = json.loads(out.stdout.strip().split("\n")[-1]) if out.stdout.strip() else {}
@@ -238,6 +253,11 @@ def conclude(prop, tier, seed, results, extras, wall, partial=False):
             print("UNDECIDED property=%s obligation=%s reason=%s" % (prop, o["name"], o.get("reason")))
         for r in unsupported:
             print("OUT-OF-REACH property=%s variant=%s: %s" % (prop, r["variant"], r["unsupported"]))
+    if bad_runs:
+        print("CHECKER-CRASH property=%s (bounded check %s did not finish%s)" % (prop, ", ".join(e.get("name", "?") for e in bad_runs),
+                                                                               "; the violations above stand" if code == 1 else ""))
+        if code != 1:
+            code = 3
     if stale:
         print("STALE-KNOWN-FINDING property=%s ids=%s (listed as known but no obligation fails any more)" % (prop, stale))
     if nob == 0 and not extras:
